@@ -99,7 +99,11 @@ def structural(case):
 
     prog, mode, defs = case["prog"], case["mode"], case["defs"]
     text = render.to_text(prog)
-    pname, mname = ("prepare_all", "measure_all") if defs == "default" else ("prep", "meas")
+    pname, mname = ("prepare_all", "measure_all") if defs in ("default", "objects-native-named") else ("prep", "meas")
+    if defs in ("only-prepare", "only-prepare-object"):
+        pname, mname = "prep", "measure_all"
+    elif defs in ("only-measure", "only-measure-object"):
+        pname, mname = "prepare_all", "meas"
     try:
         ref = Ref(prog)
         ref.validate()
@@ -126,6 +130,20 @@ def structural(case):
     elif defs == "objects":
         pobj, mobj = GateDefinition("prep"), GateDefinition("meas")
         args = {"prepare_def": pobj, "measure_def": mobj}
+    elif defs == "objects-native-named":
+        # the caller's OWN definitions, which happen to carry the default names
+        pobj, mobj = GateDefinition("prepare_all"), GateDefinition("measure_all")
+        args = {"prepare_def": pobj, "measure_def": mobj}
+    elif defs == "only-prepare":
+        args = {"prepare_def": "prep"}
+    elif defs == "only-measure":
+        args = {"measure_def": "meas"}
+    elif defs == "only-prepare-object":
+        pobj = GateDefinition("prep")
+        args = {"prepare_def": pobj}
+    elif defs == "only-measure-object":
+        mobj = GateDefinition("meas")
+        args = {"measure_def": mobj}
     st_, s = guard(expand_subcircuits, c, what="expand_subcircuits", **args)
     if st_ == "err":
         raise Violation("rejected-valid-program", f"{s}\n--- program:\n{text}")
@@ -143,10 +161,12 @@ def structural(case):
     bound = extract.find_objects(s, lambda x: isinstance(x, GateStatement) and x.name in (pname, mname), include_header=False)
     for g in bound:
         want = None
-        if defs == "objects":
-            want = pobj if g.name == pname else mobj
+        if g.name == pname and pobj is not None:
+            want = pobj
+        elif g.name == mname and mobj is not None:
+            want = mobj
         elif nat is not None and g.name in nat:
-            want = nat[g.name]
+            want = nat[g.name]  # the side the caller left out: the circuit's native definition
         if want is not None and g.gate_def is not want:
             # an explicit prepare_all written by the user in native mode also carries the native def
             raise Violation("bounding-definition-identity", f"[{defs}/{mode}] {g.name} uses {g.gate_def!r}, expected the {'caller-supplied' if defs == 'objects' else 'native'} definition\n--- program:\n{text}")
@@ -183,7 +203,7 @@ def struct_cases():
     def mk(ch):
         mode = ch.pick(["anon", "native"])
         prog, _b = gen.make_prog(ch, nat_cfg if mode == "native" else anon_cfg)
-        defs = ch.pick(["default", "default", "names", "objects"] + (["names-native"] if mode == "native" else []))
+        defs = ch.pick(["default", "default", "names", "objects", "only-prepare", "only-measure", "only-prepare-object", "only-measure-object"] + (["names-native", "objects-native-named"] if mode == "native" else []))
         return {"prog": prog, "mode": mode, "defs": defs}
 
     return gen.cases(mk)
